@@ -133,7 +133,7 @@ Example C08_xattr_clone_sample :
 Proof. vm_compute. split; reflexivity. Qed.
 
 (* --- pathB --- *)
-From P9V Require Refs.CoherentDefs Refs.CoherentHist Refs.NotifiedDeep.
+From P9V Require Refs.CoherentDefs Refs.CoherentHist Refs.NotifiedDeep Refs.NotifiedRename Refs.CoherentRename Refs.CoherentRenFrame.
 (** C08_coherent against PathFS (Refs/Coherent*.v).  [run_g] runs the history and keeps the ghost list g:
     g[r] = the inode the File path of fidRef r resolved to at the end of the request that created r
     (bind time).  [coherent s g]: every live, non-fenced fidRef r (owning its File or, for an xattr fid,
@@ -146,54 +146,77 @@ From P9V Require Refs.CoherentDefs Refs.CoherentHist Refs.NotifiedDeep.
     the victim subtree is fenced first; level 0 is told target-path/new-name (CoherentRenLoop), every level
     below parent-path/name in pre-order (NotifiedDeep.notified_below_be + CoherentRenDeep.deep_pure: induction on
     depth, "when a node is reached every fidRef whose node it is already has the node's path").
-    Hypothesis [tree_closed] after every prefix of the history (serverB's Refs/TreeInv.v: deleted marks are
-    downward closed, no run-time panic of the path-tree code was flagged) - it is the one part of the tree
-    invariant that is not yet a theorem (tree_closed_holds); tree_ok is discharged by C08_tree_inv. *)
+    Only hypothesis: the run-time panic flag of the path-tree code is not set at the end of the history
+    (it is sticky, so: no request of the history answered EFAULT from nameFor / addChild / addPathNodeFor /
+    removeChild / trename's assertion; the model's renameChildTo skips notifyNameChange once the flag is set).
+    The tree invariant tree_ok is C08_tree_inv (serverB); "a live non-fenced fidRef has a non-fenced parent"
+    (T_deleted for fidRefs) is part of the invariant [CoherentDefs.Good] and proved here for PathFS histories. *)
 Theorem C08_coherent : forall ops wga inj,
-  (forall pre post, ops = pre ++ post ->
-     P9V.Refs.TreeInv.tree_closed pfs (snd (run pfs pfs_step pre (init_state pfs (pfs_init wga inj))))) ->
+  s_panic pfs (snd (run pfs pfs_step ops (init_state pfs (pfs_init wga inj)))) = false ->
   let r := P9V.Refs.CoherentDefs.run_g ops (init_state pfs (pfs_init wga inj)) [] in
   P9V.Refs.CoherentDefs.coherent (fst r) (snd r).
 Proof.
-  intros ops wga inj H. apply P9V.Refs.CoherentHist.coherent_history. intros pre post E. split.
-  - apply TreeStep.tree_inv_history.
-  - apply (H pre post E).
+  intros ops wga inj H. apply P9V.Refs.CoherentHist.coherent_history; [|exact H].
+  intros pre post E. apply TreeStep.tree_inv_history.
 Qed.
 Print Assumptions C08_coherent.
 
-(** the same from serverB's two history propositions, for histories along which the node graph stays acyclic
-    (B2) and no fuelled recursion ran out of fuel *)
-Theorem C08_coherent_from_tree_theorems :
-  P9V.Refs.TreeInv.tree_inv_holds -> P9V.Refs.TreeInv.tree_closed_holds ->
-  forall ops wga inj,
-  (forall pre post, ops = pre ++ post ->
-     P9V.Refs.TreeInv.acyclic pfs (snd (run pfs pfs_step pre (init_state pfs (pfs_init wga inj)))) /\
-     s_oof pfs (snd (run pfs pfs_step pre (init_state pfs (pfs_init wga inj)))) = false) ->
-  let r := P9V.Refs.CoherentDefs.run_g ops (init_state pfs (pfs_init wga inj)) [] in
-  P9V.Refs.CoherentDefs.coherent (fst r) (snd r).
-Proof. exact P9V.Refs.CoherentHist.coherent_history_tree. Qed.
-Print Assumptions C08_coherent_from_tree_theorems.
-
-(** unconditional part (no tree hypothesis): every request kind except Tremove / Trename / Trenameat *)
+(** without any hypothesis (neither tree_ok nor the panic flag): every request kind except Tunlinkat / Tremove /
+    Trename / Trenameat *)
 Theorem C08_coherent_partial : forall ops wga inj,
   Forall P9V.Refs.CoherentHist.covered ops ->
   let r := P9V.Refs.CoherentDefs.run_g ops (init_state pfs (pfs_init wga inj)) [] in
   P9V.Refs.CoherentDefs.coherent (fst r) (snd r).
 Proof. exact P9V.Refs.CoherentHist.coherent_history_covered. Qed.
 Print Assumptions C08_coherent_partial.
-(** C08_notified, PARTIAL (Refs/NotifiedDeep.v): the part of the statement that concerns the fidRefs BELOW
-    the moved entry, for every state, every backend, every fuel.  The backend calls made by
-    notifyNameChange(origPathNode) are exactly, in this order, one
-    Renamed(File of r, File of r's parent, registered name) for every (r, name) registered (childRefs) in a
-    node at or below origPathNode whose reference count is positive - [NotifiedDeep.tell], the list
-    [NotifiedDeep.below] being characterised by [C08_notified_below_members] - in pre-order: all childRefs
-    of a node before anything of its child nodes, so a fidRef is told after its parent (whose node is the
-    registering node); no other call; nothing but the counts of the told fidRefs (+1, held) changes.
-    Missing for the full C08_notified: (a) level 0 - that the callbacks run by removeWithName tell exactly
-    the live fidRefs registered under the old name (each (File, target File, new name): C08_notified_partial
-    above covers one callback; the interleaved DecRef cascades of the old parents must be shown not to
-    touch the moved subtree, which needs tree_ok + the count invariant); (b) "parent told earlier" as a
-    theorem about positions in the log (needs tree_ok: T_reg, T_live, T_inj). *)
+(** C08_notified (Refs/NotifiedRename.v, PathFS backend), for the renameChildTo of a Trename / Trenameat whose
+    RenameAt the backend accepted, from any state satisfying the invariants (count invariant RefInvD, tree_ok,
+    CoherentDefs.Good; [C08_notified_states]: every state of every PathFS history that ends without the panic
+    flag, and LookupFID keeps them), provided the request itself ends without the panic flag:
+    the Renamed calls in the log ([rcalls] = the log filtered to Renamed, oldest first) are exactly
+      (level 0) Renamed(File of q, File of the TARGET, NEW NAME) for every fidRef q registered under the old
+                name before the request ([regd]; all are live and have a parent whose node is the source
+                directory; none dies before it is visited), in childRefs order, THEN
+      (below)   [deep_calls] = the calls of notifyNameChange on the moved node: C08_notified_below_partial /
+                C08_notified_below_members - every registered live fidRef in a node at or below the moved node
+                is told (its File, its PARENT's File, its registered NAME), a node's childRefs before its child
+                nodes (pre-order).
+    So a level-0 fidRef's new parent is the rename target, and a fidRef registered in node n (its parent's
+    node is n, tree_ok T_reg) is told after all fidRefs of n's parent node.
+    PARTIAL in two respects: (1) "parent told earlier" is given by the pre-order shape of [NotifiedDeep.below]
+    (definition) and not restated as a theorem about positions in the log; (2) the list below the moved node
+    is expressed on the state after level 0 ([CoherentRename.SC]: same nodes and registrations at or below the
+    moved node except that dead fidRefs are unregistered) rather than on the state before the request; and the
+    statement is for PathFS, not for every backend (the calls do not depend on the backend's answers). *)
+Theorem C08_notified : forall s d g xr t old new,
+  RefInvD pfs s d -> P9V.Refs.TreeInv.tree_ok pfs s -> P9V.Refs.CoherentDefs.Good s g -> 0 < RefStep.hc pfs s t ->
+  xr < length (s_refs pfs s) -> P9V.Refs.CoherentDefs.live s xr -> P9V.Refs.CoherentDefs.tref s xr -> P9V.Refs.CoherentDefs.nonf s xr ->
+  P9V.Refs.CoherentDefs.tref s t -> P9V.Refs.CoherentDefs.nonf s t ->
+  (fr_node (get_ref pfs s xr), old) <> (fr_node (get_ref pfs s t), new) ->
+  let r := bcall_ pfs pfs_step (BRenameAt (fr_file (get_ref pfs s xr)) old (fr_file (get_ref pfs s t)) new) s in
+  (forall e, fst r <> AErr e) ->
+  let res := rename_child_to pfs pfs_step (fr_node (get_ref pfs s xr)) old t new (snd r) in
+  s_panic pfs res = false ->
+  P9V.Refs.CoherentRenFrame.rcalls res = P9V.Refs.CoherentRenFrame.rcalls s
+     ++ map (fun q => BRenamed (fr_file (get_ref pfs s q)) (fr_file (get_ref pfs s t)) new)
+            (P9V.Refs.NotifiedRename.regd s (fr_node (get_ref pfs s xr)) old)
+     ++ P9V.Refs.CoherentRename.deep_calls s xr t old new (snd r) /\
+  (forall q, In q (P9V.Refs.NotifiedRename.regd s (fr_node (get_ref pfs s xr)) old) ->
+     q < length (s_refs pfs s) /\ P9V.Refs.CoherentDefs.live s q /\
+     exists p, fr_parent (get_ref pfs s q) = Some p /\ fr_node (get_ref pfs s p) = fr_node (get_ref pfs s xr)).
+Proof. exact P9V.Refs.NotifiedRename.notified_rename. Qed.
+Print Assumptions C08_notified.
+
+Theorem C08_notified_states : forall ops wga inj,
+  s_panic pfs (snd (run pfs pfs_step ops (init_state pfs (pfs_init wga inj)))) = false ->
+  P9V.Refs.NotifiedRename.reach_inv (snd (run pfs pfs_step ops (init_state pfs (pfs_init wga inj)))).
+Proof.
+  intros ops wga inj H. apply P9V.Refs.NotifiedRename.reach_inv_history; [exact H|].
+  intros pre post E. apply TreeStep.tree_inv_history.
+Qed.
+Print Assumptions C08_notified_states.
+
+(** the part below the moved entry, every state and every backend (Refs/NotifiedDeep.v) *)
 Theorem C08_notified_below_partial : forall B bstep fuel n held s,
   let s' := snd (notify_name_change B bstep fuel n (held, s)) in
   P9V.Refs.NotifiedDeep.calls B s' =
